@@ -912,6 +912,28 @@ func canonSlice(t *Term) *Term {
 	if len(t.Args) != 3 {
 		return t
 	}
+	// x[a:h1][b:h2] is x[a+b : h1] (h2 absent) or x[a+b : a+h2]
+	if in := t.Args[0]; in.Op == "slice" && len(in.Args) == 3 {
+		add := func(x, y *Term) *Term {
+			if c, ok := isConstInt(x); ok && c.Sign() == 0 {
+				return y
+			}
+			if c, ok := isConstInt(y); ok && c.Sign() == 0 {
+				return x
+			}
+			v := x.V
+			if v == nil {
+				v = y.V
+			}
+			return canonBin(&Term{Op: "bin", Name: "+", V: v, Args: []*Term{x, y}})
+		}
+		lo := add(in.Args[1], t.Args[1])
+		hi := in.Args[2]
+		if t.Args[2].Op != "none" {
+			hi = add(in.Args[1], t.Args[2])
+		}
+		return canonSlice(&Term{Op: "slice", V: t.V, Args: []*Term{in.Args[0], lo, hi}})
+	}
 	base := t.Args[0]
 	if base.Op != "obj" || len(base.Args) != 2 || base.Args[0].Op != "alloc" {
 		return t
